@@ -150,7 +150,8 @@ class Flush(RuleAnalysis):
         if isinstance(node, ast.Call) and isinstance(node.func, ast.Name) and node.func.id == self.p:
             return [frozenset()]  # a new ssl call: whatever was flushed before does not count
         if isinstance(node, TestAtom) and "_write_bio.pending" in ast.unparse(node.test):
-            cj = [ast.unparse(v) for v in node.test.values] if isinstance(node.test, ast.BoolOp) else [ast.unparse(node.test)]
+            from sa.norm import strip_not
+            cj = [ast.unparse(strip_not(v)[0]) for v in node.test.values] if isinstance(node.test, ast.BoolOp) else [ast.unparse(strip_not(node.test)[0])]  # `if not pending: return` is the same test
             extra = [x for x in cj if x != "self._write_bio.pending"]
             if extra:
                 self.viol.append((node.test, f"the flush of pending ciphertext is skipped under an extra condition {extra}: records produced meanwhile stay in memory and the peer waits for ever"))
